@@ -24,10 +24,13 @@ def _work(job):
     try:
         if job["kind"] == "model":
             tr = ix.run_model_behaviour(job["states"], job["level"], job["threshold"], job["seed"])
+        elif job["kind"] == "ops":
+            tr = ix.run_ops(job["ops"], job["level"], job["threshold"], job.get("store", "tree"))
         else:
             tr = ix.run_random(job["seed"], job["level"], job["threshold"], job.get("store", "tree"),
                                length=job.get("length", 40))
         tr["job"] = {k: v for k, v in job.items() if k != "states"}
+        tr.pop("ops", None)
         return {"ok": True, "trace": tr}
     except Exception:
         return {"ok": False, "error": traceback.format_exc()}
@@ -93,9 +96,10 @@ def run(prop, tier, seed, replay=None):
         for k in range(nrand):
             level = "http" if k % 4 == 0 else "store"
             store = "tree" if level == "http" else ["tree", "bare", "mem", "vdir"][k % 4]
-            jobs.append({"kind": "random", "level": level, "store": store,
+            from . import indexdriver as ixd
+            jobs.append({"kind": "ops", "level": level, "store": store,
                          "threshold": rng.choice([0, 1, 2, None, None]),
-                         "seed": rng.randrange(1 << 30), "length": 40 if quick else 70})
+                         "ops": ixd.random_ops(rng.randrange(1 << 30), 40 if quick else 70)})
         # the witness history of every listed (open) finding, re-run as recorded
         for d, e in sorted(devs.items()):
             if e.get("witness"):
@@ -118,7 +122,7 @@ def run(prop, tier, seed, replay=None):
         got = {v["dev"] for v in r["v"] if v["k"] in ("known", "viol")}
         j = jobinfo.get(r["id"]) or {}
         for d in sorted(got):
-            if d not in first and j.get("kind") == "random":
+            if d not in first and j.get("kind") == "ops":
                 first[d] = {k: v for k, v in j.items() if k != "witness_of"}
         if j.get("witness_of") and j["witness_of"] not in got:
             rep.note("the witness history of listed finding %s no longer shows it" % j["witness_of"])
